@@ -12,6 +12,7 @@
 From Coq Require Import ZArith List Bool.
 Import ListNotations.
 Require Import SV.Life.Model SV.Life.Inv SV.Life.InvRun SV.Life.Shutdown SV.Life.Service.
+Require Import SV.Life.Poller SV.Life.PollerProofs.
 Open Scope Z_scope.
 
 Theorem c06_model_never_crashes :
@@ -106,6 +107,47 @@ Example c06_reap_example :
   zombies w1 = [(1000, 256); (1002, 9); (1001, 0)] /\ zombies w2 = [] /\
   waits (out w2) = [(1001, 0); (1002, 9); (1000, 256)].
 Proof. vm_compute. repeat split; reflexivity. Qed.
+
+(* ---- the readiness layer (supervisor/poller.py; model SV.Life.Poller, compared with the real PollPoller and
+   SelectPoller on every run).  An interrupted poll()/select() is an empty answer, not an error; select()'s EBADF
+   forgets every descriptor and is an empty answer too *)
+Theorem c06_poll_interrupted_is_not_an_error :
+  forall s,
+    poll_step s (Poll (KErr EINTR)) = (s, OReady [] []) /\
+    select_step s (Poll (KErr EINTR)) = (s, OReady [] []) /\
+    select_step s (Poll (KErr EBADF)) = (mkP (reg s) [] [], OReady [] []).
+Proof. exact interrupted_is_not_an_error. Qed.
+Print Assumptions c06_poll_interrupted_is_not_an_error.
+
+(* whatever the kernel reports about registered descriptors (each at most once), poll() answers *)
+Theorem c06_poll_total :
+  forall s l, NoDup (map fst l) -> (forall fd m, In (fd, m) l -> registered fd s = true) ->
+    exists s' r w, poll_step s (Poll (KEvents l)) = (s', OReady r w).
+Proof. exact poll_total. Qed.
+Print Assumptions c06_poll_total.
+
+(* a closed descriptor (POLLNVAL) is dropped from the kernel registry and from both sets: it is not polled
+   for ever; and every descriptor returned was reported with a matching event *)
+Theorem c06_poll_drops_invalid :
+  forall s l s' r w fd m,
+    poll_step s (Poll (KEvents l)) = (s', OReady r w) -> In (fd, m) l -> has m POLLNVAL = true ->
+    registered fd s' = false /\ mem fd (rs s') = false /\ mem fd (ws s') = false.
+Proof. exact poll_drops_invalid. Qed.
+Print Assumptions c06_poll_drops_invalid.
+
+Theorem c06_poll_sound :
+  forall s l s' r w,
+    poll_step s (Poll (KEvents l)) = (s', OReady r w) ->
+    (forall fd, In fd r -> exists m, In (fd, m) l /\ has m READ = true /\ has m POLLNVAL = false) /\
+    (forall fd, In fd w -> exists m, In (fd, m) l /\ has m WRITE = true /\ has m POLLNVAL = false).
+Proof. exact poll_sound. Qed.
+Print Assumptions c06_poll_sound.
+
+(* after any sequence of poller operations the kernel registry and the two Python sets are in step *)
+Theorem c06_poller_registry_in_step :
+  forall ops, Sync (fst (runp poll_step p0 ops)).
+Proof. exact run_sync. Qed.
+Print Assumptions c06_poller_registry_in_step.
 
 (* non-vacuity: EPERM on kill, fork failure and an unknown child in one run *)
 Example c06_example :
